@@ -35,10 +35,12 @@
                                              matched with OR semantics whatever the operator
      phrase-missed / unindexed               PhraseSkipsUnindexed: phrase queries only consult the index
      must-not-phrase-missed / unindexed
-     missed-beside-repeated-term / unindexed FlatScorerCountsOccurrences: the scorer of not-yet-indexed
-     must-not-missed-beside-repeated-term    rows counts a repeated token once per occurrence; the
-                                             idf turns negative and rows with score <= 0 are dropped
-                                             (so a must_not clause does not see them either)
+     missed-beside-repeated-term / unindexed FlatDropsNonPositiveScores: rows of not-yet-indexed fragments
+     must-not-missed-beside-repeated-term    count as matches only when their score is > 0, and the scorer
+     missed-beside-empty-documents           used for them (a) counts a repeated token once per occurrence, so
+                                             the idf can turn negative, (b) truncates the average document
+                                             length to an integer, so with empty documents around it becomes
+                                             0 and every score 0 (a must_not clause misses such rows too)
      extra-rows, missed-rows, phrase-matched-out-of-sequence, deleted-row-returned,
      unknown-row-returned                    anything else                          *)
 EXTENDS Naturals, Integers, Sequences, FiniteSets, TLC
@@ -129,6 +131,7 @@ Judge(T, ever, q, limit, R) ==
                          ELSE IF \A k \in part(M \ ks, w) : andOvermatch(k) THEN <<"must-not-and-matched-on-some-terms", w>>
                          ELSE IF HasKind(q, "phrase") THEN <<"phrase-missed", w>>
                          ELSE IF w = "unindexed" /\ repeats THEN <<"missed-beside-repeated-term", w>>
+                         ELSE IF w = "unindexed" /\ (\E r \in T : TokensOf(r.doc) = {}) THEN <<"missed-beside-empty-documents", w>>
                          ELSE <<"missed-rows", w>>
       extras(clause) ==
         (IF gone = {} THEN {} ELSE {<<clause, <<"deleted-row-returned", "">>>>})
